@@ -110,7 +110,9 @@ def run_shard(prop_id: str, sub_name: str, tier: str, seed: int, shard: int, nsh
               known_open: list, cases: Optional[list] = None) -> dict:
     """Run one shard of one sub-check; returns counters, samples and violations (picklable)."""
     from importlib import import_module
+    import warnings
 
+    warnings.filterwarnings("ignore")
     t0 = time.time()
     mod = import_module(f"props.{prop_id.lower()}")
     sc: SubCheck = next(s for s in mod.SUBCHECKS if s.name == sub_name)
